@@ -25,9 +25,21 @@ CHECKS = {
     "C03": dict(cat="proof", tech="Coq theorem on the regenerated main_alg + uniqueness by filtration induction + independent exact reference solver",
                 text="Theorems C03_gauge (+ _two_block), C03_is_least_action, C03_unique: the computed U satisfies the defining equations and any two least-action unitaries coincide (given a left inverse of the Sylvester operator on eliminated elements).",
                 note=ALG_NOTE),
+    "C04": dict(cat="proof", tech="MathComp theorems on char_poly under truncated similarity + executable list-based char-poly proved equal to MathComp's, evaluated on the implementation's U, U†, H_tilde (k_charpoly) + exact char-poly oracle that never looks at U",
+                text="13 theorems: similarity invariance of char_poly over any commutative ring, congruence version modulo any ideal (in particular modulo x^(N+1): coefficients of total order <= N, multi-parameter via F = K[c]), block-diagonal factorisation, Rayleigh-Schroedinger uniqueness of the eigenvalue series of a non-degenerate fully diagonalised level; tie lemmas proving the executable determinant equal to MathComp's. The bridge series-of-matrices <-> matrices-of-series to C01/C02 is not formalised (trusted).",
+                note=BASE_NOTE + "The premises of C04_charpoly_trunc are the conclusions of C01/C02 read entry-wise (bridge between the Ncring and MathComp developments trusted); Q arithmetic of the executable check (Qred/Qeq_bool) is the unproved link of the tie."),
     "C05": dict(cat="proof", tech="Coq theorem on the regenerated nonhermitian_alg (translator) + exact differential oracle; similarity clauses _partial with known finding",
                 text="Theorems C05_inverse_l, C05_inverse_r, C05_gauge at full strength for every solution of the regenerated nonhermitian_alg in every BlockAlg (asymmetric masks included); C05_kept_partial / C05_eliminated_partial under the extra hypothesis that kept elements connect equal unperturbed energies - outside it the property is false on the unchanged tree (known finding C05-kept-distinct-energies, witness replayed each run). Coincidence with the Hermitian mode on Hermitian input: oracle only.",
                 note=ALG_NOTE),
+    "C06": dict(cat="proof", tech="Coq: naturality of the semantics (any program) + equivariance by uniqueness, C16_direct, C17; tied by correspondence k_implicit (implicit vs explicit embedded), k_greens, k_projector; partial",
+                text="C06_embedding_partial / C06_outputs_correspond_partial: any structure-preserving map between BlockAlgs intertwining the scopes maps solutions of the generated programs to solutions and (Hermitian mode) the three outputs correspond; with C16_direct (solver) and C17 (projector). Partial: the identification of the implicit block algebra with a corner algebra (unit diag(1,P)) is not formalised; KPM accuracy monitored only. Known finding C06-nh-implicit-fully-diagonalize (IndexError) replayed each run.",
+                note=BASE_NOTE + "SuperLU/MUMPS and KPM results compared numerically (1e-9*scale, 100*atol)."),
+    "C16": dict(cat="proof", tech="Coq theorems on hand models of the four solvers (stdlib / MathComp) tied by correspondence k_sylvdiag, k_greens, k_group, k_kpm, k_scalar",
+                text="C16_diagonal (+ antiherm, nodiv), C16_direct (+ pivots, regular, both orientations), C16_group, C16_kpm_contract (+ terminates, bound, small max_moments), C16_scalar: each built-in solver returns a solution of its equation where it is defined; external numerics modelled by contracts.",
+                note=BASE_NOTE + "scipy factorized/MUMPS, pivoted QR, eigsh, KDTree are contracts; invertibility of the pivot minors is a hypothesis checked exactly by the harness on every case; KPM convergence in floating point is outside the theorems."),
+    "C17": dict(cat="proof", tech="MathComp theorems on a model of ComplementProjector (object graph + denotation) with an executable list model proved to refine it, tied bit-exactly by k_projector (vm_compute)",
+                text="17 theorems: matvec/rmatvec/adjoint/conjugate/transpose denote the dense 1 - R L^dagger and its transforms for every word of operations (induction over the word), caching links, idempotency, Hermitian flag, composites P A P via the LinearOperator contract, shape/dtype; `.T.T is o` only partially (refuted witness: object identity, values unaffected).",
+                note=BASE_NOTE + "SciPy LinearOperator composition contract is modelled, not verified."),
     "C18": dict(cat="proof", tech="Coq theorems on a hand model of product_by_order/cauchy_dot_product tied by correspondence k_cauchydot (vm_compute)",
                 text="8 theorems: enumeration of splittings, product_by_order = Cauchy sum for all shapes/parameters/sentinel patterns, association of m factors, laziness, Hermitian index transposition; the Hermitian half-sum only for adjoint pairs (_partial) with a _refuted witness that is a KNOWN FINDING on the implementation; `one + x` raise is a second known finding.",
                 note=BASE_NOTE + "Values of a product live in one ring (rectangular blocks embed by zero padding)."),
